@@ -13,7 +13,9 @@ Definition kcode (k : io_kind) : N :=
   | KInvalidInput => 4 | KInvalidData => 5 | KInterrupted => 6
   end.
 Definition okind_of (n : N) : ob_kind :=
-  if n =? 0 then PreIO else if n =? 1 then PostIO else if n =? 2 then PreMem else if n =? 3 then PostMem else EmptyOb.
+  if n =? 0 then PreIO else if n =? 1 then PostIO else if n =? 2 then PreMem else if n =? 3 then PostMem
+  else if n =? 5 then PreMem   (* validate family: a node-keyed store, modelled as a memory store with the missing slots zeroed *)
+  else EmptyOb.
 Definition is_post (k : ob_kind) : bool := match k with PostIO | PostMem => true | _ => false end.
 Definition is_pre (k : ob_kind) : bool := match k with PreIO | PreMem => true | _ => false end.
 
@@ -145,6 +147,7 @@ Fixpoint apply_cor (n : nat) (l : list N) (data obd : bytes) : bytes * bytes * l
         else if w =? 4 then apply_cor k rest (firstn (N.to_nat pos) data) obd
         else if w =? 5 then apply_cor k rest (data ++ repeat 90%uint63 (N.to_nat pos)) obd
         else if w =? 6 then apply_cor k rest data (firstn (N.to_nat pos) obd)
+        else if w =? 7 then apply_cor k rest data (write_at B3 obd (pos * 64) (zeros B3 64))
         else apply_cor k rest data (zero_from obd pos)
     | _ => (data, obd, [])
     end
